@@ -18,6 +18,7 @@ CONFIG = {
     "harness": "c08",
     "case_to_replay": _c08_case,
     "timeout_quick": 600,
+    "timeout_search": 240,
     "timeout_thorough": 3000,
     "assumptions": [
         "descriptor-consistent inputs: each digest is used under one media type and size (nodes of the model are digests); a tag name is never the digest string of another node (wf_history; C08_inconsistent_reference_example shows why); reference names are valid UTF-8 (encoding/json replaces invalid bytes)",
